@@ -26,7 +26,7 @@ def booth_world(ctx, dom, k, w):
             raise Unsupported("booth digit request (%r, %r)" % (ws, i))
         kk = slice_vals(ex, argv[0]) if isinstance(argv[0], Ref) and argv[0].rng is not None else ld(ex, argv[0]).f
         if len(kk) != 4 or any(not z3.eq(dom.term(a), dom.term(b)) for a, b in zip(kk, k)):
-            raise Violation("booth recoding is applied to something other than the scalar")
+            raise Inconclusive("structure not recognised (no verdict): " + "booth recoding is applied to something other than the scalar")
         return Sc(Sym(D[i.v], -(1 << (w - 1)), 1 << (w - 1), 0), "i32")
     return n, D, S, K, booth
 
@@ -140,7 +140,7 @@ def ob_g_mul():
                     tab = frame[tab_local].val
                     rows = tab.f if isinstance(tab, Agg) else None
                     if rows is None or len(rows) != 37 or any(len(ld(ex_, r_).f) != 64 for r_ in rows):
-                        raise Violation("g_mul builds a table of unexpected shape")
+                        raise Inconclusive("structure not recognised (no verdict): " + "g_mul builds a table of unexpected shape")
                     frame[tab_local].val = Agg([Agg([G((j + 1) << (7 * i)) for j in range(64)], name="Vec") for i in range(37)], name="Vec")
                 i = rg[1] - 1
                 rinf = frame[inf_local].val
@@ -219,7 +219,7 @@ def ob_twist_mul():
             def to_bits(ex_, argv):
                 kk = ld(ex_, argv[0]).f
                 if len(kk) != 4 or any(not z3.eq(dom.term(a), dom.term(x)) for a, x in zip(kk, k)):
-                    raise Violation("u256_to_bits is applied to something other than the scalar")
+                    raise Inconclusive("structure not recognised (no verdict): " + "u256_to_bits is applied to something other than the scalar")
                 return Agg([Sc(Sym(z3.If(b[t] == 1, 49, 48), 48, 49, 0), "char") for t in range(256)], name="array")
             ex.summaries = group_summaries("TwistPoint::", order=N9)
             ex.summaries["twist_point_add_full"] = ex.summaries["TwistPoint::point_add"]
@@ -262,7 +262,7 @@ def gt_val(v):
             return isinstance(x, Sc) and x.conc() and x.v == 0
         if isinstance(v.f[0], Opaque) and v.f[0].tag == "fp4:one" and zero(v.f[1]) and zero(v.f[2]):
             return z3.IntVal(0)
-        raise Violation("exponentiation starts from an element that is not the unit (mont_one, 0, 0)")
+        raise Inconclusive("structure not recognised (no verdict): " + "exponentiation starts from an element that is not the unit (mont_one, 0, 0)")
     return gval(v)
 
 
